@@ -300,6 +300,11 @@ class PointTier(textgrid_tier.TextgridTier):
                     newEntries.append(Point(point.time - diff, point.label))
 
             newMax = newTier.maxTimestamp - diff
+            # In exact arithmetic the shrunk tier cannot end before the start
+            # of the erased region; rounding can put it a hair below when the
+            # region reaches the end of the tier
+            if end <= newTier.maxTimestamp and newMax < start:
+                newMax = start
             newTier = newTier.new(entries=newEntries, maxTimestamp=newMax)
 
         return newTier
